@@ -124,7 +124,11 @@ Definition dec_caction (x : sx) : option caction :=
   let kind := sx_str (sx_nth 0 x) in
   let i := Z.to_nat (sx_int (sx_nth 1 x)) in
   if str_eqb kind (bytes "arrive") then Some (CArrive i)
-  else if str_eqb kind (bytes "answer") then Some (CAnswer i (dec_answer (sx_str (sx_nth 2 x))))
+  else if str_eqb kind (bytes "answer") then
+    (* "slow": the origin sends the head and half of the body and stands still - nothing is decided yet, the fetch
+       stays in flight and its writer keeps the key; "finish": the rest arrives, the fetch ends as a new version *)
+    (if str_eqb (sx_str (sx_nth 2 x)) (bytes "slow") then Some (CResume i)
+     else Some (CAnswer i (dec_answer (sx_str (sx_nth 2 x)))))
   else if str_eqb kind (bytes "resume") then Some (CResume i)
   else if str_eqb kind (bytes "adv") then Some (CAdv (sx_int (sx_nth 3 x)))
   else None.
